@@ -76,7 +76,7 @@ def gen_list_history(rng, nops, mix):
                 stale = False
             ops.append('next %d' % nm)
         elif k == 'setsize':
-            ops.append('setsize %d' % rng.choice([0, 0, 1, 2, 3, 4, 4, n, n + 1, max(0, n - 1), 2 ** 40]))
+            ops.append('setsize %d' % rng.choice([0, 0, 1, 2, 3, 4, 4, n, n + 1, max(0, n - 1), 2 ** 40, 2 ** 32 + rng.randrange(0, 4), 2 ** 31 + rng.randrange(0, 3)]))
         elif k == 'clear':
             ops.append(k)
             n = 0
@@ -219,6 +219,17 @@ def directed_wrap(rng, count):
             hs.append((c, ['pushint %d' % z for z in zs] + ['getint'] + ['popint'] * (k + 1)))
         hs.append(('grow', ['addstr ' + hexs(x) for x in ss] + ['tostring', 'toarray', 'size', 'datasize', 'clear', 'tostring', 'addstr 61', 'tostring']))
         hs.append(('grow', [rng.choice(['addstr ', 'addstrf ']) + hexs(x) for x in ss] + ['tostring', 'size', 'datasize']))
+    # plain strings are stored byte for byte whatever they contain: doubled percent signs stay doubled
+    for x in (b'%%', b'a%%b', b'100%%', b'%%%%', b'%%s', b'x%%d%%y'):
+        hs.append(('grow', ['addstr 61', 'addstr ' + hexs(x), 'size', 'datasize', 'tostring', 'toarray']))
+    # element limits whose low 32 bits are small: the limit is a size_t, never an int
+    for lim in (2 ** 32, 2 ** 32 + 1, 2 ** 32 + 2, 2 ** 31, 2 ** 31 + 1, 2 ** 33 + 3, 2 ** 62 + 1, 2 ** 63 - 1):
+        for pre in (0, 1, 2, 3, 4):
+            fill = ['addlast ' + E(k) for k in range(pre)]
+            hs.append(('list', ['setsize %d' % lim] + fill + ['addlast 58', 'addfirst 59', 'addat 1 5a', 'addat -1 5b', 'size', 'tostring']))
+            hs.append(('list', fill + ['setsize %d' % lim, 'addlast 58', 'addfirst 59', 'addat 1 5a', 'size']))
+            for c in ('queue', 'stack'):
+                hs.append((c, ['setsize %d' % lim] + ['push ' + E(k) for k in range(pre)] + ['push 58', 'push 59', 'size', 'pop', 'pop']))
     # formatted pieces of every length around the sizes at which a formatting buffer has to grow
     lens = sorted(set(list(range(0, 40)) + [n + d for n in (64, 128, 255, 256, 512, 1023, 1024, 2047, 2048, 4095, 4096) for d in (-2, -1, 0, 1, 2)]))
     for i in range(0, len(lens), 6):
